@@ -453,10 +453,10 @@ Proof.
     assert (Hlen : 1 <= lenN (chain s)) by (rewrite Ech; unfold lenN; cbn [length]; lia).
     set (latest := lenN (chain s) - 1) in *.
     (* the rebuild branch, used twice *)
-    assert (Hrebuild :
+    assert (Hrebuild : forall sn,
               rinv W (let (p, r) := rebuild W (chain s) (persisted s) latest in
-                      Build_state (chain s) p (snapshot s) r [])).
-    { unfold rebuild.
+                      Build_state (chain s) p sn r [])).
+    { intros sn. unfold rebuild.
       set (cf := find_cont W (S (N.to_nat (latest / W))) (persisted s) (aligned latest)).
       destruct (find_cont_spec (persisted s) (S (N.to_nat (latest / W))) (aligned latest)
                   (aligned_mod W Wpos latest)) as [Hcm Hcv]. fold cf in Hcm, Hcv.
